@@ -45,12 +45,13 @@ func (f *failingReader) Read(b []byte) (int, error) {
 }
 
 func modeFault(outPath string, perCase int, seed int64) {
-	keys := []keySpec{{Name: 1, Cls: 1, Sec: 1}, {Name: 2, Cls: 2, Sec: 2}, {Name: 3, Cls: 3, Sec: 3}, {Name: 4, Cls: 4, Sec: 4}}
+	keys := []keySpec{{Name: 1, Cls: 1, Sec: 1}, {Name: 2, Cls: 2, Sec: 2}, {Name: emptyName, Cls: 3, Sec: 3}, {Name: 4, Cls: 4, Sec: 4}}
 	reg := newRegistry()
 	cl := service.NewCipherList()
 	cl.Update(reg.build(keys, 1))
 	cache := service.NewReplayCache(0)
-	auth := service.NewShadowsocksStreamAuthenticator(cl, &cache, nil, nil)
+	auths := []service.StreamAuthenticateFunc{service.NewShadowsocksStreamAuthenticator(cl, &cache, nil, nil),
+		service.NewShadowsocksStreamAuthenticator(cl, &cache, nil, debugLogger(true))}
 	rng := rand.New(rand.NewSource(seed))
 	payload := []byte("response bytes of the fault stage")
 
@@ -88,7 +89,7 @@ func modeFault(outPath string, perCase int, seed int64) {
 				var werr error
 				pi := guard(func() {
 					var conn transport.StreamConn
-					id, conn, err = auth(c)
+					id, conn, err = auths[i%2](c) // every second connection: -verbose
 					if err == nil {
 						_, werr = conn.Write(payload)
 					}
